@@ -94,6 +94,8 @@ def step (s : State) (args : List String) : State × String :=
     let uid := parseNat uid
     let spec := if s.st.tracking.contains uid then "0" else "x"
     apply s (.erase uid) fun | .bool b => s!"{bit b}\t{spec}" | _ => "?\tx"
+  | ["eraseint", uid] =>
+    apply s (.eraseInternal (parseNat uid)) fun | .bool b => s!"{bit b}\tx" | _ => "?\tx"
   | ["setalias", uid, aliasHex] =>
     apply s (.setAlias (parseNat uid) (unhexStr aliasHex)) fun | .bool b => s!"{bit b}\tx" | _ => "?\tx"
   | ["move", what, pos] =>
